@@ -811,6 +811,20 @@ impl Check for C05 {
                     continue;
                 }
                 rep.execs += cexecs;
+                let prekey = format!("{}/{}/{}", scn.steps[si].class, stream, shape);
+                if !w.seen.insert(prekey) {
+                    // same class already minimised by this worker: report as is (dimension list unreduced)
+                    let dims = self.dims_of(&p, false).join("+");
+                    let class = scn.steps[si].class.clone();
+                    rep.violations.push(Violation {
+                        what: format!("`{}` {} differs from the calm reference under [{}] ({})", class, stream, dims, shape),
+                        signature: format!("{}/{}/unreduced/{}", class, stream, shape),
+                        replay: self.scenario_json(&scn, &p),
+                        shrink_execs: 0,
+                        minimised: false,
+                    });
+                    continue;
+                }
                 let (mscn, mp, msi, dims, mshape, execs) = self.minimise(w, &scn, Some(&wl), &p, si, &stream, &shape);
                 rep.execs += execs;
                 let class = mscn.steps.get(msi).map(|s| s.class.clone()).unwrap_or_default();
@@ -820,6 +834,7 @@ impl Check for C05 {
                     signature: sig,
                     replay: self.scenario_json(&mscn, &mp),
                     shrink_execs: execs,
+                    minimised: true,
                 });
                 // restore the full scenario's files for the remaining perturbations
                 self.materialise(w, &scn);
@@ -858,7 +873,7 @@ impl Check for C05 {
                 if let Some(s) = o.steps.get(pos) {
                     println!("--- perturbed {}:\n{}", stream, String::from_utf8_lossy(if stream == "stderr" { &s.stderr } else { &s.stdout }));
                 }
-                Violation { signature: format!("{}/{}/{}/{}", class, stream, dims, shape), what: format!("`{}` {} differs under [{}] ({})", class, stream, dims, shape), replay: Value::Null, shrink_execs: 0 }
+                Violation { signature: format!("{}/{}/{}/{}", class, stream, dims, shape), what: format!("`{}` {} differs under [{}] ({})", class, stream, dims, shape), replay: Value::Null, shrink_execs: 0, minimised: false }
             })
             .collect()
     }
